@@ -242,7 +242,7 @@ def _dataset(draw):
 
 @st.composite
 def _big(draw):
-    base = draw(G.big_int8_case(sizes=(33, 40, 64, 65, 100)))
+    base = draw(G.big_int8_case(sizes=(100, 65, 40, 64, 33)))
     base["opts"] = draw(_OPTS)
     return base
 
